@@ -12,6 +12,7 @@ from trashcli.lib.trash_dirs import (
     volume_trash_dir1, volume_trash_dir2, home_trash_dir)
 from trashcli.trash_dirs_scanner import (
     TopTrashDirRules,
+    only_once,
     top_trash_dir_invalid_because_not_sticky,
     top_trash_dir_invalid_because_parent_is_symlink)
 
@@ -72,7 +73,7 @@ class TrashDirectories1:
                                     TopTrashDirRules(FsMethods()))
 
     def all_trash_directories(self):
-        volumes_to_check = self.volumes.list_mount_points()
+        volumes_to_check = only_once(self.volumes.list_mount_points())
         for path1, volume1 in home_trash_dir(self.environ, self.volumes):
             yield path1, volume1
         for volume in volumes_to_check:
